@@ -159,10 +159,32 @@ def check_modules(run, glue_reader):
         "cross-structure-constant-acyclic": ("struct Aa:\n  0 [+1]  UInt  x\n  let c = 3\nstruct Bb:\n  0 [+1]  UInt  y\n  let d = Aa.c + 1\n", False),
         "acyclic-diamond": ("struct Foo:\n  0 [+1]  UInt  a\n  a [+1]  UInt  b\n  a [+1]  UInt  c\n  let d = b + c\n", False),
     }
+    # every position in which a field can mention another field: the mention is a dependency edge (a -> b), closed into a
+    # cycle by b's location mentioning a, and left open in the control
+    PAR = "struct Par(n: UInt:8):\n  0 [+1]  UInt  q\n"
+    kinds = {
+        "start": ("", "  b [+1]  UInt  a\n", "a"),
+        "size": ("", "  0 [+b]  UInt:8[]  a\n", None),
+        "condition": ("", "  if b == 0:\n    0 [+1]  UInt  a\n", "a"),
+        "virtual-value": ("", "  let a = b + 1\n", "a"),
+        "type-argument": (PAR, "  0 [+1]  Par(b)  a\n", "a.q"),
+        "type-argument-expression": (PAR, "  0 [+1]  Par(b + 1)  a\n", "a.q"),
+        "requires": ("", "  0 [+1]  UInt  a\n    [requires: this == b]\n", "a"),
+    }
+    for kd, (pre, a_decl, a_ref) in kinds.items():
+        if a_ref is not None:
+            cases["edge-through-%s:cycle" % kd] = (pre + "struct Foo:\n" + a_decl + "  %s [+1]  UInt  b\n" % a_ref, kd != "requires")
+        cases["edge-through-%s:acyclic" % kd] = (pre + "struct Foo:\n" + a_decl + "  4 [+1]  UInt  b\n", False)
+    cases["type-argument-self-loop"] = (PAR + "struct Foo:\n  0 [+1]  Par(a.q)  a\n", True)
     bad = None
     for nm, (body, cyc) in cases.items():
         src = '[$default byte_order: "LittleEndian"]\n' + body
-        ir, debug, errors = glue.parse_emboss_file("w.emb", glue_reader({"w.emb": src}))
+        try:
+            ir, debug, errors = glue.parse_emboss_file("w.emb", glue_reader({"w.emb": src}))
+        except BaseException as ex:      # the property: a cycle is *reported*, and the compiler terminates normally either way
+            if bad is None:
+                bad = {"case": nm, "module": src, "expected": cyc, "exception": "%s: %s" % (type(ex).__name__, str(ex)[:200])}
+            continue
         has = any("ependency cycle" in str(e) for g in errors for e in g) if errors else False
         try:
             has = any("ependency cycle" in m.message for g in errors for m in g)
@@ -170,7 +192,7 @@ def check_modules(run, glue_reader):
             pass
         if has != cyc and bad is None:
             bad = {"case": nm, "module": src, "cycle_error_reported": has, "expected": cyc, "errors": str(errors)[:300]}
-    run.add(core.Obligation("bounded.front-end:cycle-error-iff-cycle[10 module shapes]", core.BPASS if bad is None else core.BFAIL, "cpython", 0.0,
+    run.add(core.Obligation("bounded.front-end:cycle-error-iff-cycle[module shapes incl. every reference position]", core.BPASS if bad is None else core.BFAIL, "cpython", 0.0,
                             model=bad, kind="bounded", replay=None if bad is None else {"reproduced": True, "inputs": bad}))
     return len(cases), len(cases)
 
